@@ -27,3 +27,13 @@ Theorem C09_comment_records : forall d author ts edits orc,
 Proof. intros d author ts edits orc. pose proof (engine_contract d author ts edits orc) as H. cbn zeta in *.
   destruct (apply_edits d author ts edits orc) as [[[[d' ap] sk] out] nn]. intros W E. exact (proj2 (proj2 (proj1 (proj1 H W E)))). Qed.
 Print Assumptions C09_comment_records.
+
+(* revision marks and comment ranges never span document parts (fix D57): a deletion or modification is carried out (outcome
+   Applied) only when the runs its range resolves to lie in one story *)
+Theorem C09_applied_within_one_story : forall s uc st tg nw cm o,
+  match o with Some OpIns => False | Some _ => True | None => tg <> [] end ->
+  snd (apply_indexed s uc st tg nw cm o) = Applied ->
+  let sp := if uc then match s_clean s with Some m => m | None => s_raw s end else s_raw s in
+  let '(d1, work, _) := resolve (e_doc (s_eng s)) sp st (st + length tg) in one_story d1 work = true.
+Proof. exact apply_indexed_one_story. Qed.
+Print Assumptions C09_applied_within_one_story.
